@@ -229,7 +229,7 @@ func TestVerifC17PadVersions(t *testing.T) {
 		for i := 0; i < n; i++ {
 			v := fmt.Sprintf("v%d.%d.%d", rapid.IntRange(0, 2).Draw(t, "maj"), rapid.IntRange(0, 3).Draw(t, "min"), rapid.IntRange(0, 3).Draw(t, "patch"))
 			if rapid.IntRange(0, 2).Draw(t, "pre") == 0 {
-				v += "-" + rapid.SampledFrom([]string{"pre.1", "pre.2", "pre.3", "rc.1", "pre.9"}).Draw(t, "preTag")
+				v += "-" + rapid.SampledFrom([]string{"pre.1", "pre.2", "pre.3", "rc.1", "pre.9", "pre.10", "rc.9", "rc.10", "2", "10", "rc-1", "pre.2.1"}).Draw(t, "preTag")
 				withPre = true
 			}
 			switch rapid.IntRange(0, 11).Draw(t, "spelling") {
